@@ -1,6 +1,6 @@
 (* Executable model of the three machine-readable writers and their escaping functions:
      emacs   format_emacs_posts::write_xact / operator() / escape_string / flush  (emacs.cc:41-118, emacs.h:69-73)
-     csv     report_t::fn_quoted / fn_quoted_rfc / fn_join (report.cc:751-799) applied by the csv format
+     csv     report_t::fn_quoted / fn_quoted_rfc / fn_join (report.cc:751-813) applied by the csv format
              (report.h csv_format_, regenerated into Gen/CsvFormat.v)
      xml     put_xact / put_post / put_amount / put_commodity / put_account (xact.cc, post.cc, amount.cc,
              commodity.cc, account.cc) + boost::property_tree's write_xml_element and encode_char_entities
@@ -8,7 +8,7 @@
    and, as SPECIFICATIONS OF THE CONSUMERS, four readers: an Emacs-Lisp lexer, an RFC 4180 csv
    reader, a backslash-escape csv reader, and an XML character-data decoder.
    Characters are byte codes; a string is `str = list Z`.  Definitions only. *)
-From LedgerV Require Import Base.Prelude Gen.CsvFormat Gen.PayeeRule.
+From LedgerV Require Import Base.Prelude Gen.CsvFormat Gen.PayeeRule Gen.JoinRule Gen.XmlWalk.
 Local Open Scope Z_scope.
 
 (* byte codes used below:  10 newline  32 space  34 dquote  35 #  38 &  39 '  40 (  41 )  44 ,  45 -  47 /
@@ -37,8 +37,34 @@ Definition csv_esc (c : Z) : str :=
 Definition csv_quoted (s : str) : str := 34 :: flat_map csv_esc s ++ [34].
 (* report.cc:770-785 fn_quoted_rfc: dquote becomes dquote dquote *)
 Definition csv_quoted_rfc (s : str) : str := 34 :: replace_char 34 [34; 34] s ++ [34].
-(* report.cc:787-799 fn_join: a newline becomes the two characters \ n *)
-Definition join_lines (s : str) : str := replace_char 10 [92; 110] s.
+(* report.cc fn_join: `foreach (const char ch, arg)` with a chain of tests on ch, each writing ch or
+   a literal; the chain is regenerated from the source on every run (Gen/JoinRule.v
+   src_join_clauses; currently: a newline becomes the two characters \ n, every other byte is copied).
+   `ch` is a plain char: on x86-64/Linux it is signed, a byte >= 0x80 compares as byte - 256 *)
+Definition c_char (b : Z) : Z := if b <? 128 then b else b - 256.
+Definition jtest_holds (t : jtest) (ch : Z) : bool :=
+  match t with
+  | JEq c => ch =? c | JNe c => negb (ch =? c)
+  | JLt c => ch <? c | JLe c => ch <=? c | JGt c => c <? ch | JGe c => c <=? ch
+  | JElse => true
+  end.
+Fixpoint join_char (cl : list (jtest * jout)) (b : Z) : str :=
+  match cl with
+  | [] => []                                  (* no clause applies: nothing is written *)
+  | (t, o) :: r => if jtest_holds t (c_char b) then match o with JCopy => [b] | JLit l => l end
+                   else join_char r b
+  end.
+Definition join_with (cl : list (jtest * jout)) (s : str) : str := flat_map (join_char cl) s.
+Definition join_lines (s : str) : str := join_with src_join_clauses s.
+(* the consumer of a joined note: the two characters \ n stand for a line break *)
+Fixpoint unjoin (s : str) : str :=
+  match s with
+  | [] => []
+  | a :: r => match r with
+              | b :: r' => if (a =? 92) && (b =? 110) then 10 :: unjoin r' else a :: unjoin r
+              | [] => [a]
+              end
+  end.
 
 (* boost encode_char_entities (xml_parser_utils.hpp:47-82) *)
 Definition xml_entity (c : Z) : str :=
@@ -516,6 +542,24 @@ Definition put_xact (x : xact) : ptree :=
      [(k_postings, Node [] [] (map (fun p => (k_posting, put_post x p)) (x_posts x)))]).
 
 (* the <transactions> element of the document (indent level 1) *)
+(* ptree.cc format_ptree::flush: which postings of a reported transaction are written, given the
+   ones that passed the display filter (those operator() received) and all postings of the
+   transaction (all calculated, POST_EXT_VISITED, when nothing but --display filters); the rule is
+   regenerated from the source on every run (Gen/XmlWalk.v) *)
+Definition xml_walked_rule (w : xml_walk) (displayed all : list post) : list post :=
+  match w with
+  | WalkVisited => all
+  | WalkDisplayed => displayed
+  | WalkUnrecognised => []
+  end.
+Definition xml_walked (displayed all : list post) : list post := xml_walked_rule src_xml_walk displayed all.
+Definition xml_walk_name : str :=
+  match src_xml_walk with
+  | WalkVisited => [118]        (* v *)
+  | WalkDisplayed => [100]      (* d *)
+  | WalkUnrecognised => [63]    (* ? *)
+  end.
+
 Definition xml_transactions (xs : list xact) : str :=
   write_el k_transactions (Node [] [] (map (fun x => (k_transaction, put_xact x)) xs)) 1.
 
